@@ -137,6 +137,18 @@ def cases(rng, tier):
         c = "STORE " + ops_text(ops)
         INFO[c] = ops
         out.append(c)
+    # queries that carry records of their own - a probe's proposed records in the authority section (RFC 6762 8.1), known answers,
+    # additional records - equal to registered ones (any TTL, either cache-flush bit) or not: the reply is decided by the questions
+    for i, rec in enumerate(P):
+        for sec in ("ans", "nss", "adds"):
+            ops = [("AA", r) for r in (rec, P[(i + 3) % len(P)])]
+            for qt in (255, dns.rdata_type_code(rec["rdata"])):
+                q = query_pkt(4 + 12 * i, [{"name": rec["name"], "qtype": qt, "qclass": 255 if i % 2 else rec["class"], "uni": bool(i % 3 == 0)}])
+                q[sec] = [dict(rec, ttl=[0, 120, 4500][i % 3], cf=bool(i % 2)), dict(P[(i + 5) % len(P)])]
+                ops.append(("R", q))
+            c = "STORE " + ops_text(ops)
+            INFO[c] = ops
+            out.append(c)
     # random op sequences with removes, clears, cached records and two-question queries
     for _ in range(800 if tier == "quick" else 8000):
         ops = []
